@@ -221,8 +221,28 @@ EXTRA = {
     "C16": " Constant signed / negative argument expressions; sign of the macros' values; release-style second build (unsigned plain char).",
     "C20": " Burst(n) action (closed form of n logs, equal to the iteration in Mlog_mc) for 2^31+261 (thorough: 2^32+5) messages that nobody reads; every line length 0..700; '*' widths.",
 }
-for _k, _v in EXTRA.items():
-    CHECKS[_k]["note"] += _v
+# additions of round e (DESIGN.md section 15.5)
+EXTRA_E = {
+    "C01": " The first execution of every driver run uses the statically initialised scheduler as it is (no reset hook). Crowd event: thousands of fibres on one queue, tallies judged by CrowdOK.",
+    "C02": " Exact distances at the far end of the 2^31 window (lateness 2^31-1 and 2^31, a maximal delay registered behind a one-tick sleeper).",
+    "C03": " MainLoop.tla IterSignal / WakeNotSleptOn: sleeps cut short by a signal whose handler posts a wake-up (all mock sleeping primitives report EINTR the POSIX way).",
+    "C05": " ringbuf_empty called from the producer's side (actions PEmptyLoadR/W, configuration g); index distances equal to 2^32 - len on huge rings.",
+    "C06": " Directed executions that fill (and overflow) the atomic run queue between two passes of an otherwise idle main loop, judged by the result-level specification as well; 4 KiB events in a 32-deep queue.",
+    "C07": " The rest of each descriptor is registered as plain memory, so fields added by a change take part in the happens-before check.",
+    "C08": " Resume points on every line 1..65535 (Sweep events; functions of up to 8192 yields), #line bases spread over the range, user variables named like macro-declared locals (scanned from gcc -E, header namespace excluded) or everyday names, stack pre-filled before each invocation.",
+    "C09": " Relocate action (a list_t copied to other storage), comparator shapes incl. one that never reports a tie, stale links through list_iterator_insert.",
+    "C10": " Cycles(n) action: 2^27 (thorough 2^32+1) whole cycles on an idle queue in closed form, run natively and checked as they go; every power-of-two message size through both initialisers.",
+    "C13": " Re-encoded bytes compared with the decoded bytes whatever length the decoder consumed; chunk ids in every letter case; the largest files that fit.",
+    "C14": " Chunks in front of the fmt chunk with sizes of every magnitude.",
+    "C15": " Command names at and beyond the longest typable token (79 characters).",
+    "C16": " Every power of two +-1 as compile-time constants; the functions' external symbols (pointers, parenthesised names) in the vectors and in the exhaustive sweep.",
+    "C17": " External symbol, callers' pointer names, heap / struct seeds; unity, LTO and -O3 builds.",
+    "C19": " Fast steady rotation (no repeated sample) of many lengths ended by a two-bit jump.",
+    "C20": " Conversion-free formats with literal per cent signs; a natural 270 M-message (thorough 4.4 G) history inspected at round message counts.",
+}
+for _d in (EXTRA, EXTRA_E):
+    for _k, _v in _d.items():
+        CHECKS[_k]["note"] += _v
 
 NOT_YET = "check not built yet (work in progress; planned per DESIGN.md section 4)"
 NA = {}
